@@ -93,21 +93,78 @@ def dispatchC02 : Dispatch := fun op args =>
       let r := div2by1 u1 u0 (Reciprocal.new d)
       both s!"{natToHex r.1} {natToHex r.2}" s!"{natToHex ((u1 * B + u0) / d)} {natToHex ((u1 * B + u0) % d)}"
     | _, _, _ => badArgs
-  -- hook-level (crate-internal) functions; no L0
+  -- hook-level (crate-internal) functions (`crypto_bigint::verif_hooks`)
+  -- `short_div(dividend, dividend_bits, divisor, divisor_bits)`: L0 = `dividend / divisor` on the function's
+  -- contract (`dividend < 2^dividend_bits`, `divisor` of exactly `divisor_bits` bits, `dividend_bits ≤ 32`);
+  -- outside it only the mirror L1.  Lines with `dividend_bits < divisor_bits` or a shift `≥ 32` are not
+  -- generated (release wraps the subtraction / masks the shift amount, dbgchk panics).
+  | ["c02", "hook", "short_div"], [x, xb, y, yb] =>
+    match hexToNat? x, xb.toNat?, hexToNat? y, yb.toNat? with
+    | some x, some xb, some y, some yb =>
+      if x ≥ U32 ∨ y ≥ U32 ∨ xb < yb ∨ xb - yb ≥ 32 then badArgs else
+      let l1 := natToHex (shortDiv x xb y yb)
+      if xb ≤ 32 ∧ x < 2 ^ xb ∧ 0 < y ∧ y < 2 ^ yb ∧ 2 ^ yb ≤ 2 * y then both l1 (natToHex (x / y)) else some l1
+    | _, _, _, _ => badArgs
+  -- `Reciprocal::new(d).verif_fields()` (also compared with the Debug output, `shift()` and `reciprocal(dn)`
+  -- in the harness): L0 = `(d·2^lz, lz, ⌊(B²−1)/dn⌋ − B)`
+  | ["c02", "hook", "recip_fields"], [d] =>
+    match hexToNat? d with
+    | some d =>
+      if d = 0 then some "none" else if d ≥ B then badArgs else
+      let rc := Reciprocal.new d
+      let lz := 64 - (Nat.log2 d + 1)
+      both s!"{natToHex rc.divisorNormalized} {rc.shift} {natToHex rc.reciprocal}"
+           s!"{natToHex (d * 2 ^ lz)} {lz} {natToHex (reciprocalSpec (d * 2 ^ lz))}"
+    | none => badArgs
+  -- raw `reciprocal(d)`, `d ≥ 2^63`
   | ["c02", "hook", "reciprocal"], [d] =>
     match hexToNat? d with
-    | some d => some (natToHex (reciprocalImpl d))
+    | some d =>
+      -- `debug_assert!(d >= 1 << 63)`: only normalised divisors are generated
+      if d ≥ B ∨ d < HALF then badArgs else both (natToHex (reciprocalImpl d)) (natToHex (reciprocalSpec d))
     | none => badArgs
+  -- `div2by1(u1, u0, Reciprocal::new(d))` for ANY non-zero `d`: L0 (contract `u1 < dn`) divides by the normalised divisor
   | ["c02", "hook", "div2by1"], [u1, u0, d] =>
     match hexToNat? u1, hexToNat? u0, hexToNat? d with
     | some u1, some u0, some d =>
-      let r := div2by1 u1 u0 (Reciprocal.new d); some s!"{natToHex r.1} {natToHex r.2}"
+      if d = 0 then some "none" else
+      let rc := Reciprocal.new d
+      let dn := rc.divisorNormalized
+      if u1 ≥ dn ∨ u0 ≥ B then badArgs else
+      let r := div2by1 u1 u0 rc
+      both s!"{natToHex r.1} {natToHex r.2}" s!"{natToHex ((u1 * B + u0) / dn)} {natToHex ((u1 * B + u0) % dn)}"
     | _, _, _ => badArgs
+  -- `div3by2(u2, u1, u0, Reciprocal::new(v1), v0)`, `v1 ≥ 2^63`, `u2 ≤ v1`: L0 = min(⌊u / v⌋, B − 1)
   | ["c02", "hook", "div3by2"], [u2, u1, u0, v1, v0] =>
     match hexToNat? u2, hexToNat? u1, hexToNat? u0, hexToNat? v1, hexToNat? v0 with
     | some u2, some u1, some u0, some v1, some v0 =>
-      some (natToHex (div3by2 u2 u1 u0 (Reciprocal.new v1) v0))
+      if v1 < HALF ∨ v1 ≥ B ∨ u2 > v1 ∨ u1 ≥ B ∨ u0 ≥ B ∨ v0 ≥ B then badArgs else
+      both (natToHex (div3by2 u2 u1 u0 (Reciprocal.new v1) v0))
+           (natToHex (min (((u2 * B + u1) * B + u0) / (v1 * B + v0)) (B - 1)))
     | _, _, _, _, _ => badArgs
+  -- `Reciprocal::default()` / `conditional_select` used in a subsequent division:
+  -- c bit 0 = choice, bit 1 = operand order; the selected divisor is `d` or `Word::MAX`
+  | ["c02", "u", "recip_select"], [l, n, d, c] | ["c02", "b", "recip_select"], [l, n, d, c] =>
+    match l.toNat?, hexToNat? n, hexToNat? d, c.toNat? with
+    | some L, some n, some d, some c =>
+      if d = 0 then some "none" else if d ≥ B ∨ c ≥ 4 ∨ L = 0 then badArgs else
+      let boxed := op = "c02.b.recip_select"
+      let fresh := Reciprocal.new d
+      let a := if c / 2 = 0 then fresh else Reciprocal.dflt
+      let b := if c / 2 = 0 then Reciprocal.dflt else fresh
+      -- `Word::conditional_select(&a.f, &b.f, choice)` per field
+      let rc : Reciprocal := if c % 2 = 1 then b else a
+      let dsel := if (c % 2 = 1) = (c / 2 = 0) then WMAX else d
+      let lz := 64 - (Nat.log2 dsel + 1)
+      let u := toLimbs L n
+      let r := divRemLimbWithReciprocal u rc
+      let rr := if boxed then boxedRemLimbWithReciprocal u rc else remLimbWithReciprocal u rc
+      let q1 := if boxed then limbsHexLen r.1 else limbsHex r.1
+      let q0 := if boxed then lenHex L (n / dsel) else hexW L (n / dsel)
+      if rr ≠ r.2 then some "model-forms-differ" else
+      both s!"{natToHex rc.divisorNormalized} {rc.shift} {natToHex rc.reciprocal} {q1} {natToHex r.2} ok"
+           s!"{natToHex (dsel * 2 ^ lz)} {lz} {natToHex (reciprocalSpec (dsel * 2 ^ lz))} {q0} {natToHex (n % dsel)} ok"
+    | _, _, _, _ => badArgs
   -- single-limb divisor, fixed: `c02.u.<name> L n d`
   | ["c02", "u", "div_rem_limb"], [l, n, d] =>
     match l.toNat?, hexToNat? n, hexToNat? d with
